@@ -298,3 +298,5 @@ def run(ctx):
     from . import C14
     C14.r7_no_loss(ctx, 'C18.R8', C14.REFUSAL_SLOT + C14.ACK_SLOTS, floor=3)
     boundaries.check_amounts(ctx, 'C18.RA', 'C18')
+    from .. import errdisc
+    errdisc.check(ctx, 'C18.RD', 'C18', 36)
